@@ -8,7 +8,7 @@ Local Open Scope nat_scope.
    [cell] per environment (width E xs: all have E environments).  cellat xs k e = what env e
    contributed to raw step k.  window n xs k = raw steps k .. k+n-1.  cut w = number of steps of the
    window that are summed (up to and including the first step at which some environment is done).
-   ok_window n xs e k m = the window lengths the property admits: 1 <= m <= n, env e has no done
+   ok_window n xs e k m = the window lengths the property allows: 1 <= m <= n, env e has no done
    flag at steps k .. k+m-2, and m < n only if some environment ended at step k+m-1.
    disc_sum g xs k e m = sum_{i<m} g^i * r_{k+i,e}.
    pair_run (n_step_info g) n c xs = state of (n_step_memory, memory) of capacity c after feeding xs
@@ -137,6 +137,21 @@ Theorem discount_powers : forall g xs k e m,
    fold_right Qplus 0 (map (fun i => g ^ Z.of_nat i * rw (cellat xs (k + i) e)) (seq 0 m)))%Q.
 Proof. exact disc_sum_powers. Qed.
 Print Assumptions discount_powers.
+
+(* n = 1 stores the raw transition; the repair 6825082 only affects windows that start on a
+   terminal transition, and for those the record is the first transition, untouched *)
+Theorem nstep_one_is_identity : forall g t, n_step_info g [t] = t.
+Proof. exact info_single. Qed.
+Print Assumptions nstep_one_is_identity.
+
+Theorem repair_is_local : forall g w,
+  any_done (hd [] w) = false -> n_step_info_pinned g w = n_step_info g w.
+Proof. exact pinned_agrees. Qed.
+Print Assumptions repair_is_local.
+
+Theorem terminal_start_is_kept : forall g t r, any_done t = true -> n_step_info g (t :: r) = t.
+Proof. exact info_terminal_start. Qed.
+Print Assumptions terminal_start_is_kept.
 
 (* the pinned loop (before fix 6825082) violates the property: a window that starts on a terminal
    step takes its next observation and part of its reward from the next episode *)
